@@ -50,7 +50,7 @@ func (loader *VeneersLoader) load(reader io.Reader) (rewrite.LanguageRules, erro
 	var builderRules []builder.RewriteRule
 	var optionRules []option.RewriteRule
 
-	veneers := &Veneers{}
+	veneers := Veneers{}
 
 	decoder := yaml.NewDecoder(reader)
 	decoder.KnownFields(true)
